@@ -8,6 +8,7 @@ import (
 	"saoverif/chain"
 
 	modeltypes "github.com/SaoNetwork/sao/x/model/types"
+	ordertypes "github.com/SaoNetwork/sao/x/order/types"
 	"pgregory.net/rapid"
 )
 
@@ -81,6 +82,31 @@ type C09Oracle struct {
 	twinOK  bool
 	Counted map[string]int
 	Twins   int
+	// access lists and owner after setup: no later request in a case is an owner-signed permission
+	// change, so they must stay as they are (content updates by the read-write grantee included)
+	perm0        *modeltypes.Metadata
+	GranteeStore int
+}
+
+func (o *C09Oracle) permsUnchanged(s *Sim, sn *chain.Snapshot, where string) {
+	if o.perm0 == nil {
+		return
+	}
+	m, ok := sn.Metas[o.perm0.DataId]
+	if !ok {
+		return
+	}
+	norm := func(x []string) []string {
+		if len(x) == 0 {
+			return nil
+		}
+		return x
+	}
+	if m.Owner != o.perm0.Owner || !reflect.DeepEqual(norm(m.ReadonlyDids), norm(o.perm0.ReadonlyDids)) || !reflect.DeepEqual(norm(m.ReadwriteDids), norm(o.perm0.ReadwriteDids)) {
+		s.FailT("permissions-changed-without-owner-request", "", map[string]string{"where": where},
+			"%s: access lists of %s changed without an owner-signed permission request: owner %s -> %s, read-only %v -> %v, read-write %v -> %v", where, tail(o.perm0.DataId),
+			tail(o.perm0.Owner), tail(m.Owner), tails(o.perm0.ReadonlyDids), tails(m.ReadonlyDids), tails(o.perm0.ReadwriteDids), tails(m.ReadwriteDids))
+	}
 }
 
 func (o *C09Oracle) Name() string { return "C09" }
@@ -131,6 +157,14 @@ func atoi(s string) int {
 }
 
 func (o *C09Oracle) AfterAction(s *Sim, a *Action, pre, post *chain.Snapshot, res *chain.TxResult) {
+	if o.perm0 == nil && a.Kind == "permission" && res.OK && a.Extra["adv"] == "" {
+		// the owner's own grant during setup is the baseline (recorded here so that replays have it too)
+		if m, ok := post.Metas[a.DataId]; ok {
+			mm := m
+			o.perm0 = &mm
+		}
+	}
+	o.permsUnchanged(s, post, a.Kind)
 	if a.Extra["adv"] == "" {
 		return
 	}
@@ -156,6 +190,7 @@ func (o *C09Oracle) AfterAction(s *Sim, a *Action, pre, post *chain.Snapshot, re
 
 // Boundary: the model must also stay untouched afterwards (an in-flight marker rolled back later still counts).
 func (o *C09Oracle) Boundary(s *Sim, sn *chain.Snapshot) {
+	o.permsUnchanged(s, sn, "block boundary")
 	if o.w == nil || !o.watching(s) {
 		return
 	}
@@ -322,6 +357,42 @@ func genAdversarial(t *rapid.T, s *Sim, w *c09World, n int) *Action {
 	return a
 }
 
+// granteeUpdate: an authorised content update signed by the read-write grantee whose proposal also
+// carries access lists (which only matter when a model is created). Its shards are completed at once,
+// so nothing stays in flight.
+func granteeUpdate(t *rapid.T, s *Sim, w *c09World, o *C09Oracle, n int) {
+	meta, ok := s.Last.Metas[w.dataId]
+	if !ok || meta.Status != modeltypes.MetaComplete {
+		return
+	}
+	a := NewAction("store", w.gateway)
+	a.Owner, a.Signer, a.PropProv = w.rw, w.rw, w.gateway
+	a.DataId, a.Alias, a.Cid = w.dataId, meta.Alias, CidC
+	a.Op = uint32(rapid.IntRange(1, 2).Draw(t, "op"))
+	a.Size, a.Replica, a.Duration, a.Timeout = 1000, 1, 3600, 5
+	a.Commit = latestCommit(meta) + "|" + CommitN(200+n)
+	pick := func(label string) []int {
+		return rapid.SliceOfNDistinct(rapid.SampledFrom([]int{w.stranger[0], w.ro, w.rw}), 0, 2, func(i int) int { return i }).Draw(t, label)
+	}
+	a.RO, a.RW = pick("proposalReadonly"), pick("proposalReadwrite")
+	a.Extra = map[string]string{"granteeUpdate": "1"}
+	if !s.Do(a).OK {
+		return
+	}
+	o.GranteeStore++
+	s.Label("c09-grantee-content-update")
+	if len(a.RO)+len(a.RW) > 0 {
+		s.Label("c09-grantee-update-carries-access-lists")
+	}
+	for _, sh := range sortedShards(s.Last) {
+		if sh.Status == ordertypes.ShardWaiting && sh.OrderId == a.Order {
+			c := NewAction("complete", s.acctOf(sh.Sp))
+			c.Order, c.Cid, c.Size = a.Order, sh.Cid, sh.Size_
+			s.Do(c)
+		}
+	}
+}
+
 func c09Property(t *rapid.T) {
 	o := &C09Oracle{}
 	s := NewSim(t, "C09", o)
@@ -332,6 +403,10 @@ func c09Property(t *rapid.T) {
 		for i := 0; i < n; i++ {
 			if _, ok := s.Last.Metas[w.dataId]; !ok {
 				break
+			}
+			if rapid.IntRange(0, 4).Draw(t, "granteeUpdate") == 0 {
+				granteeUpdate(t, s, w, o, i)
+				continue
 			}
 			s.Do(genAdversarial(t, s, w, i))
 			if rapid.IntRange(0, 2).Draw(t, "adv") == 0 {
